@@ -13,8 +13,8 @@ META = {
     "level_text": "Partial. Theorems (select_first, bindings_sound, captured_sound, covers_sound, isSub_sound, patTy_sound) hold for "
                   "every pattern, value and environment of the reference matcher in lean/ElkVerif/Model/Pattern.lean; the "
                   "checker's fully-captured-type computation (types/checker/pattern.go, second result of checkPattern) is "
-                  "modelled line by line for the fragment. The compiled matching code (compiler/bytecode_compiler.go pattern, "
-                  "vm) is tied per generated (switch, value) pair, pattern depth <= 3; no theorem quantifies over the compiler.",
+                  "modelled line by line for the fragment. A Lean mirror of the emitted matching code (cmatch) is proved to decide the reference relation and, without ||/?, to "
+                  "store the reference bindings; the real compiler/VM are tied to both per generated (switch, value) pair, depth <= 3.",
     "level_note": "Trusted: Lean kernel; the S-expression decoder of Driver/Dom/Pattern.lean; the Elk printer and inspect parser "
                   "of checks/c30.py; elkh run. Set patterns, regex patterns, object patterns other than `C()`/`C(length: p)`, "
                   "sized-integer literals and macros are outside the fragment. Known finding: variables under `||`/`?`.",
@@ -615,9 +615,9 @@ def py_match(env, p, v):
         b = py_match(env, p[1], v)
         if b is None:
             return None
-        b = dict(b)
-        b[p[2]] = v
-        return b
+        out = {p[2]: v}       # `x` is stored first, an inner binding of the same name wins
+        out.update(b)
+        return out
     if t == 'or':
         b = py_match(env, p[1], v)
         if b is not None:
@@ -716,6 +716,23 @@ def impl_results(ans, nvalues, cases):
     tail = "%s %s %s" % (ans["outcome"], ans.get("err_class", ""), (ans.get("err_msg") or ans.get("panic") or "")[:120])
     while len(out) < nvalues:
         out.append(("crash " + tail.strip()) if len(out) == len(chunks) else "not-run")
+    return out
+
+
+def impl_struct(ans, cases):
+    """stdout of the switch program → [(index or None, {var: canonical value})] (unparsable chunks: ('?', text))"""
+    out = []
+    for c in ans["stdout"].split("@@\n")[1:]:
+        try:
+            t = parse_inspect(c.strip())
+            idx = t[1][0][1]
+            if idx < 0:
+                out.append((None, {}))
+            else:
+                out.append((idx, dict(zip(sorted_vars(cases[idx]), [canon_value(x) for x in t[1][1:]]))))
+        except Exception:
+            m = re.match(r"\s*%\[\s*(-?\d+)", c)
+            out.append(("?" if not m else int(m.group(1)), None))
     return out
 
 
@@ -1175,7 +1192,16 @@ def check_select(ctx, lines, label, tag):
             small = ln
         i2 = run_switch_lines([small], tag=tag + "r")[0]
         m2 = vlib.run_model([small])[0]
-        v2 = judge(small, i2, m2) or verdict
+        v2 = judge(small, i2, m2)
+        if v2 is None or v2[0] != kind:
+            # not reproducible on re-execution: try the original line twice more before calling it a failure
+            again = [judge(ln, run_switch_lines([ln], tag=tag + "q%d" % t)[0], mo) for t in range(2)]
+            if not any(x is not None and x[0] == kind for x in again):
+                ctx.stat("not-reproducible")
+                ctx.extra.setdefault("not_reproducible", []).append({"line": ln, "first_verdict": list(verdict)})
+                reported -= 1
+                continue
+            small, v2 = ln, verdict
         e2, c2, vals2 = parse_line(small)
         inp = {"line": small, "program": switch_program("P", e2, c2, vals2)}
         if v2[0] == "property-fails":
@@ -1199,6 +1225,61 @@ def check_select(ctx, lines, label, tag):
         ctx.violation("generated-switches-rejected", {"line": rejected[0][0]}, rejected[0][1], no_input=True)
 
 
+def csel_results(ans):
+    """`ok r | r …` of `pat csel`: list of (index or None, {var: canonical value or 'stale'})"""
+    out = []
+    for r in ans[3:].split(" | "):
+        r = r.strip()
+        if r == "else":
+            out.append((None, {}))
+            continue
+        idx, _, rest = r.partition(" ")
+        binds = sx_parse("(" + rest + ")") if rest else []
+        out.append((int(idx), {b[0]: ("stale" if b[1] == "stale" else canon_value(un_value(b[1]))) for b in binds}))
+    return out
+
+
+def check_compiled(ctx, lines, tag="B"):
+    """binders under `||` / `?`: Elk against the Lean mirror of the compiled matcher (`cmatch`): same case,
+    same content of every variable the bytecode stored; variables it never stored (`stale`) are not compared"""
+    impl = run_switch_lines(lines, tag=tag)
+    model = vlib.run_model([l.replace("pat\tsel\t", "pat\tcsel\t", 1) for l in lines])
+    ok = True
+    shown = 0
+    for ln, (a, ires), mo in zip(lines, impl, model):
+        env, cases, values = parse_line(ln)
+        if ires is None or not mo.startswith("ok "):
+            ctx.stat("compiled:rejected-or-unanswered")
+            continue
+        mres = csel_results(mo)
+        got_all = impl_struct(a, cases)
+        for k, (v, (idx, binds)) in enumerate(zip(values, mres)):
+            if k >= len(got_all):
+                if a["outcome"] != "value" and k == len(got_all):
+                    got = ("crash", None)
+                else:
+                    continue
+            else:
+                got = got_all[k]
+            ctx.stat("compiled:" + ("else" if idx is None else "case"))
+            stale = [x for x, w in binds.items() if w == "stale"]
+            if stale:
+                ctx.stat("compiled:stale-variable")
+            good = got[0] == idx
+            if good and idx is not None and got[1] is not None:
+                good = all(got[1].get(x) == w for x, w in binds.items() if w != "stale")
+            elif good and idx is not None and got[1] is None:
+                good = bool(stale)        # a stale slot may print anything, even something the parser rejects
+            ctx.case(("compiled", ln, sx_value(v)), sample={"line": ln, "value": sx_value(v), "elk": str(got), "cmatch": binds})
+            if not good and shown < 3:
+                shown += 1
+                if ctx.violation("model-impl-disagree", {"line": ln, "value": sx_value(v), "correspondence": "compiled matcher (cmatch)",
+                                                         "program": switch_program("P", env, cases, [v])},
+                                 "Elk %r, mirror of the compiled matcher: case %s %r" % (got, idx, binds), no_input=True):
+                    ok = False
+    ctx.obligation(f"compiled matcher: Elk = Lean cmatch on {len(lines)} switches with variables under || and ?", ok, "correspondence")
+
+
 def run(ctx):
     ctx.rule = ("(switch, value) pairs: 1-5 cases of pattern depth <= 3 built around seed values (literal, range, list/tuple "
                 "with rest, map/record, C()/C(length:), binder, as, ||, &&, ?, must, relational), 8 values per switch "
@@ -1218,9 +1299,10 @@ def run(ctx):
         return
     corpus = vlib.corpus_lines("C30")
     sel = [l for l in corpus if l.split("\t")[1] == "sel"]
-    n = ctx.n(140, 6000)
+    n = ctx.n(140, 3000)
     lines = sel + [gen_line(ctx.rng) for _ in range(n)]
     check_select(ctx, lines, "switch", "S")
+    check_compiled(ctx, [gen_line(ctx.rng, alt_binders=True) for _ in range(ctx.n(40, 800))])
     from checks import c30_cov
     c30_cov.check_cov(ctx, [l for l in corpus if l.split("\t")[1] == "cov"] +
-                      [c30_cov.gen_cov(ctx.rng) for _ in range(ctx.n(50, 2500))])
+                      [c30_cov.gen_cov(ctx.rng) for _ in range(ctx.n(50, 800))])
